@@ -151,7 +151,11 @@ func main() {
 	for i := lo; i < hi; i++ {
 		runCase(i, args, genScenario(args.CaseRand(i)), v)
 	}
-	for _, k := range []string{"released_from_queue", "expired_in_queue", "rejected_full", "held_across_rollover"} {
+	rlo, rhi := args.Share(args.Pick(320, 6000))
+	for i := rlo; i < rhi; i++ {
+		raceCase(i, args, args.CaseRand(1_000_000+i), v)
+	}
+	for _, k := range []string{"released_from_queue", "expired_in_queue", "rejected_full", "held_across_rollover", "race_released_after_its_ttl_fired"} {
 		if v.Counters[k] == 0 {
 			v.Inconclude("batch never observed " + k)
 		}
